@@ -186,8 +186,12 @@ func ruleMemFind(c *Ctx, r *Reporter) {
 			if !ok {
 				return false, false
 			}
-			if call, ok := bo.X.(*ssa.Call); ok && (call.Call.StaticCallee() == a.cmpKey || staticName(call) == "bytes.Compare") {
-				if k, ok := constInt(bo.Y); ok && k == 0 {
+			x, y := bo.X, bo.Y
+			if _, isK := constInt(x); isK {
+				x, y = y, x
+			}
+			if call, ok := x.(*ssa.Call); ok && (call.Call.StaticCallee() == a.cmpKey || staticName(call) == "bytes.Compare") {
+				if k, ok := constInt(y); ok && k == 0 {
 					return bo.Op == token.NEQ, bo.Op == token.EQL
 				}
 			}
